@@ -231,11 +231,16 @@ impl<M: ConvexCellMarker> Iterator for ConvexCellDecomposition<'_, M> {
     }
 }
 
-pub(crate) trait ConvexCellMarker: Clone + Send + Sync + Default {}
+/// Marker trait for the type state of a [`ConvexCell`] (with or without face information).
+/// It is public so that downstream crates can name the bound in their implementations of the
+/// integral traits; it is not meant to be implemented outside of this crate.
+pub trait ConvexCellMarker: Clone + Send + Sync + Default {}
 
+/// Type state of a [`ConvexCell`] that can still be clipped (no face information stored).
 #[derive(Copy, Clone, Default)]
 pub struct WithoutFaces;
 impl ConvexCellMarker for WithoutFaces {}
+/// Type state of a [`ConvexCell`] with the vertices of its faces stored.
 #[derive(Copy, Clone, Default)]
 pub struct WithFaces;
 impl ConvexCellMarker for WithFaces {}
